@@ -662,6 +662,27 @@ pub fn check(ctx: &mut Ctx, id: &'static str) {
             }
             ctx.random("ast-documents", 400, 400_000, 30_000_000, |t| gen(t, which), |c, obs| oracle_c13(c, obs, kf1, false));
             ctx.reshrink::<AstCase, _, _>("ast-documents", |c, obs| oracle_c13(c, obs, kf1, false), crate::props::clean::shrink_ast);
+            // removed blocks deep inside pending parents (nesting depth far beyond the random generator's 3)
+            let mut deep: Vec<AstCase> = vec![];
+            for k in [4usize, 9, 17, 33, 65, 130] {
+                for unit in ["  ", "\t"] {
+                    let ind = unit.repeat(k.min(6));
+                    let ready = |id: usize| Node::Block { indent: ind.clone(), open_lead: String::new(), elem: Elem { id, cond: Cond::Rm(0), skip: false, unwrap: false, style: 0 }, open_trail: String::new(), kids: vec![Node::Line(format!("{ind}{unit}gone{id}();"))], close_indent: ind.clone(), close_lead: String::new(), close_trail: String::new() };
+                    let inner = vec![Node::Line(format!("{ind}keep_a();")), ready(k + 1), Node::Line(format!("{ind}keep_b();")), Node::Line(String::new()), ready(k + 2), Node::Line(String::new()), Node::Line(format!("{ind}keep_c();"))];
+                    let doc = astgen::deep_doc(k, &[(Cond::Tl(3), false), (Cond::Rm(1), false)], unit, inner);
+                    deep.push(AstCase { doc, spell: Spell { ds: "<!-- <".into(), de: "> -->".into(), tl: "tl".into(), rm: "rm".into(), unreg: "zz".into() }, cfg: ACfg { now_idx: 3, targets: 1 } });
+                }
+            }
+            let n = deep.len();
+            ctx.exhaustive("deep-nesting", &format!("{n} documents with two removed blocks inside 4..130 nested pending parents"), deep.into_iter().map(|c| vec![c]).collect(), move |cs, obs| {
+                for c in cs {
+                    obs.eval();
+                    if let Verdict::Fail(m) = oracle_c13(c, obs, kf1, true) {
+                        return Some(fail_case("deep-nesting", c, truncate(&m, 1500)));
+                    }
+                }
+                None
+            });
         }
     }
 }
